@@ -37,8 +37,10 @@ static cJSON *add_subobject_to_object(const struct peer *p, cJSON *root, cJSON *
 		log_peer_err(p, "Could not allocate memory for %s object!\n", key);
 		cJSON_Delete(root);
 		root = NULL;
-	} else {
-		cJSON_AddItemToObject(root, key, value);
+	} else if (unlikely(!add_item_to_object(root, key, value))) {
+		log_peer_err(p, "Could not allocate memory for %s object!\n", key);
+		cJSON_Delete(root);
+		root = NULL;
 	}
 	return root;
 }
@@ -114,8 +116,13 @@ static cJSON *create_error_object(const struct peer *p, int code, const char *ta
 	if ((tag != NULL) && (reason != NULL)) {
 		cJSON *data = cJSON_CreateObject();
 		if (likely(data != NULL)) {
-			cJSON_AddItemToObject(error, "data", data);
+			/* data is released by the callee if the reason cannot be added */
 			if (unlikely(add_subobject_to_object(p, data, cJSON_CreateString(reason), tag) == NULL)) {
+				cJSON_Delete(error);
+				goto err;
+			}
+			if (unlikely(!add_item_to_object(error, "data", data))) {
+				cJSON_Delete(error);
 				goto err;
 			}
 		}
@@ -137,7 +144,10 @@ cJSON *create_error_response(const struct peer *p, const cJSON *id, int code, co
 
 	cJSON *error = create_error_object(p, code, tag, reason);
 	if (likely(error != NULL)) {
-		cJSON_AddItemToObject(root, "error", error);
+		if (unlikely(!add_item_to_object(root, "error", error))) {
+			cJSON_Delete(root);
+			return NULL;
+		}
 		return root;
 	} else {
 		cJSON_Delete(root);
@@ -171,7 +181,10 @@ cJSON *create_result_response(const struct peer *p, const cJSON *id, cJSON *resu
 		return NULL;
 	}
 
-	cJSON_AddItemToObject(root, result_type, result);
+	if (unlikely(!add_item_to_object(root, result_type, result))) {
+		cJSON_Delete(root);
+		return NULL;
+	}
 	return root;
 }
 
